@@ -245,6 +245,41 @@ void StringDictionaryXBW::save(std::ostream &out) {
   saveValue<uint64_t>(out, elements);
   saveValue<uint32_t>(out, maxlength);
 
+  if (alpha == NULL) {
+    // A loaded dictionary only holds the XBW structures: the arrays of the
+    // image are regenerated from them
+    uint n = xbw->nodesCount;
+    uint *xalpha = new uint[n];
+    uint *xlast = new uint[n / W + 1];
+    uint *xA = new uint[n / W + 2];
+
+    for (uint i = 0; i < n / W + 1; i++)
+      xlast[i] = 0;
+    for (uint i = 0; i < n / W + 2; i++)
+      xA[i] = 0;
+
+    for (uint i = 0; i < n; i++) {
+      xalpha[i] = xbw->alpha->access(i);
+      if (xbw->last->access(i))
+        bitset(xlast, i);
+    }
+    for (uint i = 0; i <= n; i++)
+      if (xbw->A->access(i))
+        bitset(xA, i);
+    bitset(xA, n + 1); // the closing mark set by the constructor
+
+    out.write((char *)&n, sizeof(uint));
+    out.write((char *)xbw->mapping, 257 * sizeof(uint));
+    out.write((char *)xalpha, n * sizeof(uint));
+    out.write((char *)xlast, (n / W + 1) * sizeof(uint));
+    out.write((char *)xA, (n / W + 2) * sizeof(uint));
+
+    delete[] xalpha;
+    delete[] xlast;
+    delete[] xA;
+    return;
+  }
+
   out.write((char *)&len, sizeof(uint));
   out.write((char *)mapping, 257 * sizeof(uint));
   out.write((char *)alpha, len * sizeof(uint));
